@@ -156,18 +156,46 @@ def check_file(rows, ncomps=(1, 2, 3), min_radius=None, tmpdir="."):
             if nb != len(secs):
                 problems.append(f"ncomp={n}: {nb} branches for {len(secs)} sections")
                 continue
-            # match branches to sections by the traced coordinates of their last point
+            # match branches to sections by the traced coordinates of their last point; where several sections end at the same
+            # coordinates (zero-length sections) the candidates are disambiguated by the parent relation (backtracking): any
+            # matching under which the connectivity agrees is a witness that the file's connectivity is reproduced
             key = lambda xyz: tuple(np.round(np.asarray(xyz, dtype=float), 6))
-            sec_of_end = {key(pts[s["points"][-1]][2:5]) + (len(s["own"]),): i for i, s in enumerate(secs)}
-            m = {}
+            par = [int(p) for p in np.asarray(cell.comb_parents)]
+            cands = []
             for b in range(nb):
                 k = key(cell.xyzr[b][-1, :3])
-                cand = [i for i, s in enumerate(secs) if key(pts[s["points"][-1]][2:5]) == k and i not in m.values()]
-                if not cand:
-                    problems.append(f"ncomp={n}: branch {b} does not end at the end point of any section")
-                    break
-                m[b] = cand[0]
+                cands.append([i for i, s in enumerate(secs) if key(pts[s["points"][-1]][2:5]) == k])
+            if any(not c for c in cands):
+                problems.append(f"ncomp={n}: branch {[b for b in range(nb) if not cands[b]][0]} does not end at the end point of any section")
+                continue
+            m = {}
+
+            def assign(b):
+                if b == nb:
+                    return True
+                for i in cands[b]:
+                    if i in m.values():
+                        continue
+                    sp = secs[i]["parent"]
+                    if (par[b] == -1) != (sp is None):
+                        continue
+                    if par[b] != -1 and par[b] in m and m[par[b]] != sp:
+                        continue
+                    m[b] = i
+                    if assign(b + 1):
+                        return True
+                    del m[b]
+                return False
+            if not assign(0) or any(par[b] != -1 and m[par[b]] != secs[m[b]]["parent"] for b in range(nb)):
+                # no consistent matching: fall back to the first candidates so that the mismatch is reported concretely
+                m = {}
+                for b in range(nb):
+                    free = [i for i in cands[b] if i not in m.values()]
+                    if not free:
+                        break
+                    m[b] = free[0]
             if len(m) != nb:
+                problems.append(f"ncomp={n}: branches cannot be matched one-to-one to the sections of the file")
                 continue
             par = [int(p) for p in np.asarray(cell.comb_parents)]
             for b in range(nb):
